@@ -169,6 +169,9 @@ def e2e_history(rng, state=None):
             ops.append({"op": "enableRule", "loc": loc, "id": rng.choice(RULE_IDS), "enable": False})
         else:
             ops.append({"op": "clear", "loc": loc})
+    if rng.random() < 0.4:
+        # process restart: a new System and a new (empty) in-memory cron over the same storage; the locations are opened again
+        ops.insert(rng.randint(max(1, len(ops) - 2), len(ops)), {"op": "restart"})
     ops.append({"op": "fireAll", "ms": 2300})
     return {"kind": "c15.sys", "mode": "real", "state": state, "locs": locs, "cron": {"persistent": False, "byLoc": False}, "ops": ops,
             "family": "e2e", "timeout_ms": 30000}
